@@ -66,7 +66,7 @@ func init() {
 			}
 			return 12
 		},
-		Rule: "even cases: 400 generated messages (all 24 types round-robin; payload depth<=6, width<=8; boundary integers up to +-2^53, floats incl. integral/-0/subnormal/1e308, " +
+		Rule: "even cases: 90 messages nested 8..200 levels deep plus 400 generated messages (all 24 types round-robin; payload depth<=6, width<=8; boundary integers up to +-2^53, floats incl. integral/-0/subnormal/1e308, " +
 			"strings incl. multi-byte/U+2028/controls/quotes, null, bool, empty and nested containers, binary) x 3 formats: round-trip, cross-format canonical equality and encoded-list shape; " +
 			"odd cases: 2000 (thorough: 6000) hostile byte strings (random, and mutations of valid encodings: bit flips, truncation, splices, length edits, type-code swaps, deep nesting, huge declared lengths) into " +
 			"Deserialize and DeserializeDataItem of each format: no panic, error xor message, message only if an independent generic decode is a list headed by a known code with kind-compatible fields; " +
@@ -266,7 +266,29 @@ func safely(f func()) (panicked any) {
 	return nil
 }
 
+// c14Deep: payloads nested 8..200 levels deep (lists, dicts, alternating) must round-trip like any other.
+func c14Deep(c *Case) {
+	for _, f := range formats() {
+		for _, depth := range []int{8, 29, 30, 31, 32, 33, 40, 64, 100, 200} {
+			for shape := 0; shape < 3; shape++ {
+				var v any = "leaf"
+				for i := 0; i < depth; i++ {
+					if shape == 0 || (shape == 2 && i%2 == 0) {
+						v = wamp.List{v}
+					} else {
+						v = wamp.Dict{"k": v}
+					}
+				}
+				m := &wamp.Publish{Request: 7, Options: wamp.Dict{}, Topic: "deep.topic", Arguments: wamp.List{depth, v}, ArgumentsKw: wamp.Dict{"deep": v}}
+				c14OneRoundTrip(c, f, m, canon.Msg(m), wamp.PUBLISH, 3)
+			}
+		}
+	}
+	c.Add("deeply_nested_messages", 90)
+}
+
 func c14RoundTrip(c *Case) {
+	c14Deep(c)
 	fs := formats()
 	const n = 400
 	var samples []string
